@@ -125,6 +125,36 @@ IDS = {}          # id(obj) -> declared node id
 KEEP = []         # keep objects alive so id() stays unique
 
 
+class GetOnlyCache(Cache):
+    """A contract-following backend that implements only `get` and `set` (so `exists` is the base class's: try `get`),
+    reports what it does not hold the way `MemoryCache` does (`raise CacheGetFailure(...) from KeyError`) and follows a
+    fault script on reads: miss / failGet (fail the read), forget (drop the entry and fail the read).  Not part of
+    the Lean model: programs using it are judged by the property's own oracle (cached = uncached) only."""
+
+    def __init__(self, cid):
+        self.cid = cid
+        self.store = {}
+        self.script = []
+
+    def get(self, evaluatable, options):
+        fp = evaluatable.fingerprint(options)
+        f = self.script.pop(0) if self.script else "behave"
+        if f == "forget":
+            self.store.pop(fp, None)
+        if f in ("miss", "failGet", "forget", "lieBlind"):
+            raise CacheGetFailure(evaluatable, options, self) from KeyError(fp)
+        try:
+            return self.store[fp]
+        except KeyError as e:
+            raise CacheGetFailure(evaluatable, options, self) from e
+
+    def set(self, evaluatable, options, value):
+        f = self.script.pop(0) if self.script else "behave"
+        if f in ("miss", "forget"):
+            return
+        self.store[evaluatable.fingerprint(options)] = value
+
+
 class _LogHandler(logging.Handler):
     def emit(self, record):
         msg = record.getMessage()
@@ -318,6 +348,8 @@ class Graph:
                 c = NoCache()
             elif kind == "scripted":
                 c = ScriptedCache(cid)
+            elif kind == "getonly":
+                c = GetOnlyCache(cid)
             else:
                 c = MemoryCache()
                 c._cache = LogDict(cid)
@@ -867,7 +899,7 @@ def _run_mutator(g, op, name):
             for c in g.caches.values():
                 if isinstance(c, MemoryCache):
                     dict.clear(c._cache)
-                elif isinstance(c, ScriptedCache):
+                elif isinstance(c, (ScriptedCache, GetOnlyCache)):
                     c.store.clear()
         elif name == "script":
             g.cache(op["cache"]).script = list(op["faults"])
